@@ -242,7 +242,12 @@ func (b *ShardBuilder) Write(out io.Writer) error {
 	w.writeTOC(&toc)
 	tocSection.end(w)
 	tocSection.write(w)
-	return w.err
+	if w.err != nil {
+		return w.err
+	}
+	// The deferred Flush above discards its error; everything that is still
+	// buffered (the whole shard if it is smaller than the buffer) is written here.
+	return buffered.Flush()
 }
 
 func (b *ShardBuilder) writeJSON(data any, sec *simpleSection, w *writer) error {
